@@ -11,7 +11,7 @@ Definition len (d : list Z) : Z := Z.of_nat (length d).
 Definition rec_ok (d : list Z) (r : rec) : Prop :=
   (forall i, 0 <= i < r_idx r -> i < len d -> dnth d i <= r_ts r) /\
   (forall i, r_idx r < i -> i < len d -> r_ts r <= dnth d i).
-(* the variant the code's grEq would need: strictly smaller before the record *)
+(* the variant the lower-bound call needed before its repair (index asked for t1 itself): strictly smaller before the record *)
 Definition rec_ok_strict (d : list Z) (r : rec) : Prop :=
   (forall i, 0 <= i < r_idx r -> i < len d -> dnth d i < r_ts r) /\
   (forall i, r_idx r < i -> i < len d -> r_ts r <= dnth d i).
@@ -51,7 +51,7 @@ Proof.
   destruct (Ha r Hin) as [Hup _]. specialize (Hup i ltac:(lia) ltac:(lia)). lia.
 Qed.
 
-(* lower bound, the code's call (the index is asked for the wanted timestamp itself): complete only
+(* lower bound, the call as it was before the repair (the index is asked for the wanted timestamp itself): complete only
    under the strict invariant *)
 Lemma pos_ge_complete_strict ci cid k d t p :
   find_chunk ci cid = Some k -> chunk_inv_strict k d -> pos_ge ci cid t = PPos p ->
